@@ -36,14 +36,20 @@ def run(chk):
     c = "eqsig/im.py:calc_n_cyc_array_w_power_law"
     unmodelled_in(r, chk, "R-PL-DEG", c)
     expect(chk, "R-PL-DEG", c, r.ret, deg={R: 0}, parity={R: "even"}, loc=r.fi.loc())
-    expect(chk, "R-PL-LEN", c, r.ret, sign="nonneg", kind=K_ARRAY, tags_has=["interp:previous", "cum", "abs"], loc=r.fi.loc())
+    expect(chk, "R-PL-LEN", c, r.ret, sign="nonneg", kind=K_ARRAY, tags_has=["cum", "abs"], loc=r.fi.loc())
+    # the count is held between peaks: interp1d(kind='previous'), or the library's own interp_left (y[searchsorted(x, x0, 'right') - 1])
+    via_left = "searchsorted:right" in r.ret.tags and any(e.callee.endswith("fns.generic.interp_left") for e in r.events("call"))
+    chk.ob("R-PL-LEN", c + "[via:interp:previous]", "derives through a previous-value (step) interpolation onto the time index",
+           "interp:previous" in r.ret.tags or via_left, derived="tags %s" % sorted(t for t in r.ret.tags if t.startswith(("interp:", "searchsorted:"))),
+           loc=r.fi.loc())
     chk.ob("R-PL-LEN", c + "[len]", "first dimension is the record's length", r.ret.shape is not None and r.ret.shape[0] == LinExpr("n"),
-           derived="shape %r" % (r.ret.shape,), loc=r.fi.loc())
+           derived="shape %r" % (r.ret.shape,), loc=r.fi.loc(), inconclusive=(r.ret.shape is None and r.ret.indef))
     cut = [e for e in r.events("compare", r.fi.qualname) if "p:cut_off" in (e.left.tags | e.right.tags) or "red:max" in (e.left.tags | e.right.tags)]
     for e in cut[:1]:
         chk.ob("R-PL-DEG", c + "{cut-off}", "both sides of the cut-off comparison have degree 1 and are even", alg_degree(e.left.a(R)) == Exp(1) and
                alg_degree(e.right.a(R)) == Exp(1) and alg_parity(e.left.a(R)) == "even" and alg_parity(e.right.a(R)) == "even",
-               derived="%s vs %s" % (alg_str(e.left.a(R)), alg_str(e.right.a(R))), loc=e.loc, stmt=e.stmt)
+               derived="%s vs %s" % (alg_str(e.left.a(R)), alg_str(e.right.a(R))), loc=e.loc, stmt=e.stmt,
+               inconclusive=any(is_top(x.a(R)) and not x.a(R)[1] for x in (e.left, e.right)))
     if not cut:
         chk.ob("R-PL-DEG", c + "{cut-off}", "a cut-off comparison against max|values|", False, derived="none found", loc=r.fi.loc())
     # ---- separate atoms: exponents
@@ -99,6 +105,14 @@ def run(chk):
                    v.f0 and "p:values" in v.tags and alg_degree(v.a(R)) == Exp(1), derived="first element exactly zero: %s; degree %s" %
                    (v.f0, alg_str(v.a(R))), loc=cls_[0].loc)
             expect(chk, "R-PK-SHIFT", c + "{cleaned input}", v, length="n", kind=K_ARRAY, loc=cls_[0].loc)
+        # orientation: the sign that makes the first movement an increase is read from the CLEANED array (its second sample differs from its
+        # first by construction); read from the raw series it is 0 whenever the record starts with a plateau and wipes the result out
+        sg = [e for e in r.events("lib-call", PK + q) if e.name == "numpy.sign" and e.args and e.args[0].kind in (K_SCALAR, K_TOP)]
+        for e in sg[:1]:
+            chk.ob("R-PK-SHIFT", c + "{orientation}", "the orienting sign is taken from the cleaned array", "ret:clean_out_non_changing#0" in e.args[0].tags,
+                   derived="sign of a value with provenance %s" % (sorted(t for t in e.args[0].tags if t.startswith(("ret:", "p:"))),), loc=e.loc, stmt=e.stmt,
+                   detail="a leading plateau gives sign 0: both peak-only series come out identically zero" if
+                   "ret:clean_out_non_changing#0" not in e.args[0].tags else None)
         puts = [e for e in r.events("lib-call", PK + q) if e.name == "numpy.put"]
         if len(puts) == 1:
             tgt, ind, vals = puts[0].args[:3]
@@ -124,6 +138,16 @@ def half_weight(chk, fi, c, what):
     for n in ast.walk(fi.node):
         if isinstance(n, ast.Call) and ast.unparse(n.func).split(".")[-1] == "cumsum" and n.args:
             e = n.args[0]
+            # the accumulated array may be a zeros buffer that receives the per-peak contributions by one scattered store
+            # (buf[indices] = contributions): then the contributions carry the weight
+            if isinstance(e, ast.Name):
+                allocs = [a for a in ast.walk(fi.node) if isinstance(a, ast.Assign) and len(a.targets) == 1 and isinstance(a.targets[0], ast.Name)
+                          and a.targets[0].id == e.id]
+                stores = [a for a in ast.walk(fi.node) if isinstance(a, ast.Assign) and len(a.targets) == 1 and
+                          isinstance(a.targets[0], ast.Subscript) and isinstance(a.targets[0].value, ast.Name) and a.targets[0].value.id == e.id]
+                if len(allocs) == 1 and isinstance(allocs[0].value, ast.Call) and ast.unparse(allocs[0].value.func).split(".")[-1] in \
+                        ("zeros", "zeros_like") and len(stores) == 1:
+                    e = stores[0].value
             env = straightline_env(fi.node.body, Normaliser(), exclude=set(fi.params))
             p = env.poly(e)
             found.append(p)
